@@ -256,6 +256,8 @@ fn must_fail<C: Suite>(ctx: &mut Ctx, package: &SigningPackage<C>, shares: &BTre
 fn check<C: Suite>(case: &Case, ctx: &mut Ctx) -> CheckResult {
     let shape = Shape { n: case.shape.n.max(2), t: case.shape.t.clamp(2, case.shape.n.max(2)) };
     let (n, t) = (shape.n as usize, shape.t as usize);
+    // the ciphersuite crate's own keys::refresh::* give what the generic functions give
+    crate::wrappers::differential::<C>(ctx, "C10", crate::wrappers::Part::Refresh, case.seed)?;
     let keys = make_keys::<C>(shape, case.ids, case.source, case.seed, "C10")?;
     ctx.label(&format!("src:{}", case.source.name()));
     let msg = case.msg.bytes();
@@ -448,6 +450,34 @@ fn invalid_inputs<C: Suite>(ctx: &mut Ctx, kps: &Kps<C>, pk: &PublicKeyPackage<C
                 ensure!(ctx, r.is_err(), "C10/dealer-refresh/changed-threshold-accepted", "refresh_share accepted a refreshing share of threshold {t2} for a key package of threshold {t} ({desc})");
             }
         }
+        // (ii') changed threshold hidden from 16-bit length fields: the refreshing polynomial has 65536 further
+        // coefficients (all equal to e), the share lies on it. Rare: verifying it costs 65536 + t group operations.
+        if case.seed % 24 == 3 && !C::SID.slow() {
+            if let Ok((shares, _)) = refresh::compute_refreshing_shares::<C, _>(pk.clone(), remaining, &mut Tape::random(rng.next())) {
+                if let Some(sh) = shares.iter().find(|s| *s.identifier() == victim) {
+                    ctx.eval(&format!("{},{},dealer,invalid,threshold,+65536", shape.n, t), true);
+                    ctx.label("invalid:changed-threshold-by-65536");
+                    let e = sc_rand_nonzero::<C>(rng.next());
+                    let mut coeffs = sh.commitment().coefficients().to_vec();
+                    let have = coeffs.len();
+                    coeffs.resize(have + 65536, frost::keys::CoefficientCommitment::new(gen_::<C>() * e));
+                    // the stripped commitment entry j belongs to the power j+1
+                    let x = victim.to_scalar();
+                    let mut pw = x;
+                    for _ in 0..have {
+                        pw = pw * x;
+                    }
+                    let mut acc = zero::<C>();
+                    for _ in 0..65536u32 {
+                        acc = acc + pw;
+                        pw = pw * x;
+                    }
+                    let bad = SecretShare::<C>::new(victim, frost::keys::SigningShare::new(sh.signing_share().to_scalar() + e * acc), VerifiableSecretSharingCommitment::new(coeffs));
+                    let r = refresh::refresh_share(bad, &kps[&victim]);
+                    ensure!(ctx, r.is_err(), "C10/dealer-refresh/changed-threshold-accepted", "refresh_share accepted a refreshing share whose polynomial has {} + 65536 coefficients (threshold {t} + 65536) for a key package of threshold {t} ({desc})", have + 1);
+                }
+            }
+        }
         // (iii) unknown participant
         ctx.eval(&format!("{},{},dealer,invalid,unknown", shape.n, t), true);
         ctx.label("invalid:unknown-participant");
@@ -513,6 +543,19 @@ fn invalid_inputs<C: Suite>(ctx: &mut Ctx, kps: &Kps<C>, pk: &PublicKeyPackage<C
                     }
                 }
             }
+        }
+        // (ii') a peer's commitment with 65536 surplus entries (a length that matches only modulo 2^16)
+        {
+            ctx.eval(&format!("{},{},dkg,invalid,threshold,+65536", shape.n, t), true);
+            ctx.label("invalid:changed-threshold-by-65536");
+            let (mut r1, _) = dkg_refresh_inputs(&honest, &receiver);
+            let pkg = r1[&victim].clone();
+            let mut coeffs = pkg.commitment().coefficients().to_vec();
+            let have = coeffs.len();
+            coeffs.resize(have + 65536, frost::keys::CoefficientCommitment::new(gen_::<C>() * sc_rand_nonzero::<C>(rng.next())));
+            r1.insert(victim, round1::Package::new(VerifiableSecretSharingCommitment::new(coeffs), *pkg.proof_of_knowledge()));
+            let r = refresh::refresh_dkg_part2(honest.r1_secret[&receiver].clone(), &r1);
+            ensure!(ctx, r.is_err(), "C10/dkg-refresh/changed-threshold-accepted", "refresh_dkg_part2 accepted a peer commitment of {} + 65536 entries ({desc})", have);
         }
         // (iii) unknown participant takes part in the refresh
         ctx.eval(&format!("{},{},dkg,invalid,unknown", shape.n, t), true);
